@@ -36,8 +36,20 @@ static bool simOnNumbering(const char* dir, const RTA& d, int n, const Alpha& al
 	out.assign(n, std::vector<bool>(n, false));
 	try
 	{
-		auto rel = A.ComputeSimulation(sp);
-		for (int q = 0; q < n; ++q) for (int r = 0; r < n; ++r) out[q][r] = rel.get(q, r);
+		// the relation is read from a fresh object, or from ONE object of the process that is assigned every new relation
+		// (copy- or move-assignment: whatever the object remembers of the relation it held before must go), and the
+		// pairs are queried in ascending, descending or random order (seeded change m103)
+		static AutBase::StateDiscontBinaryRelation carried;
+		std::vector<std::pair<int, int>> pairs; for (int q = 0; q < n; ++q) for (int r = 0; r < n; ++r) pairs.push_back(std::make_pair(q, r));
+		int ord = static_cast<int>(g.below(3)); if (ord == 1) std::reverse(pairs.begin(), pairs.end()); else if (ord == 2) std::shuffle(pairs.begin(), pairs.end(), g);
+		int how = static_cast<int>(g.below(3));
+		if (how == 0) { auto rel = A.ComputeSimulation(sp); for (auto& p : pairs) out[p.first][p.second] = rel.get(p.first, p.second); }
+		else
+		{
+			R->count("relation-object-reassigned");
+			if (how == 1) carried = A.ComputeSimulation(sp); else { auto tmp = A.ComputeSimulation(sp); carried = tmp; }
+			for (auto& p : pairs) out[p.first][p.second] = carried.get(p.first, p.second);
+		}
 	}
 	catch (std::exception& e) { R->violation(key + "/exception", e.what()); return false; }
 	if (out != ref)
